@@ -227,6 +227,7 @@ func isExportedRecv(t types.Type) bool {
 // makeChanCap returns the capacity expression of the make(chan ...) that defines the channel value, if
 // the value resolves to exactly one make call: (isMake, capExprOrNil).
 func makeCap(v *V) (bool, *V) {
+	v = stripConv(v) // a conversion to a directional channel type is still the same channel
 	if v == nil || !v.IsCall("builtin.make") || len(v.Args) == 0 {
 		return false, nil
 	}
